@@ -461,6 +461,7 @@ def variant_package(base, seed):
     else:
         raw = open(os.path.join(SAMPLES, base), "rb").read()
     drop_settings = rng.random() < 0.3
+    rename_prefix = rng.random() < 0.25
     out = io.BytesIO()
     with zipfile.ZipFile(io.BytesIO(raw)) as zin, zipfile.ZipFile(out, "w", zipfile.ZIP_DEFLATED) as zout:
         for info in zin.infolist():
@@ -523,6 +524,11 @@ def variant_package(base, seed):
                             if isinstance(e.tag, str) and e.tag.rpartition("}")[2] in ("sequence-decls", "forms") and rng.random() < 0.5:
                                 kind.remove(e)
                 data = etree.tostring(root.getroottree(), xml_declaration=True, encoding="UTF-8")
+            if name in ("content.xml", "styles.xml") and data.strip() and rename_prefix:
+                # the ODF text namespace bound to another prefix: the same infoset, as any producer may write it
+                if b"xmlns:txt=" not in data and b" text:" not in data.split(b">", 2)[1][:0]:
+                    data = data.replace(b"xmlns:text=", b"xmlns:txt=").replace(b"<text:", b"<txt:").replace(b"</text:", b"</txt:").replace(b" text:", b" txt:")
+                    etree.fromstring(data)  # still well-formed
             if name in ("meta.xml", "content.xml", "styles.xml") and data.strip() and rng.random() < 0.15:
                 # another legal XML encoding, declared in the XML declaration (odfdo itself always writes UTF-8)
                 enc = rng.choice(["ISO-8859-1", "UTF-16"])
